@@ -10,9 +10,8 @@ TRUSTED = [
     "keyword dimension string is also asked from the real code)",
     "Proofs/UnitsSpec.lean: the hand-written SI definitions and measure compositions the tables are proved equal to; "
     "Proofs/UnitsUseSpec.lean: the specification's reading of a composite string, UDA control -> deck item, and the "
-    "exception lists naming the open findings (fieldPropsOpen, fieldPropsMismatchOpen, udaOpen, inputLacks)",
-    "harness/units.cpp PENDING: nine exact property-mode keys of reported findings are recorded in pending.txt instead of "
-    "failing the check (to be emptied when they are listed in known_findings.txt or fixed)",
+    "exception lists in the theorem statements (udaOpen = [WCONPROD_LIFT], the one open finding; inputLacks = [Ymodule]; "
+    "fieldPropsOpen / fieldPropsMismatchOpen are empty since fix 0d2fae2e6)",
     "modelled, not verified: Summary.cpp mul_unit/div_unit (anonymous namespace) are tied by the translator only",
     "harness/units.cpp + lib/vlib.py differ; model driver (compiled Lean)",
     "modelled, not verified: IEEE rounding (theorems are exact over Rat / any field of characteristic 0; the Float run "
@@ -26,8 +25,9 @@ TRUSTED = [
 def run(ctx):
     ctx.assumptions += [
         "doubles cross the protocol as IEEE bit patterns; the build has no FMA contraction (x86-64 baseline)",
-        "\"X/\" and \"/\" are never sent to UnitSystem::parse (it indexes parts[1] of a one-element vector: undefined "
-        "behaviour, characterised exactly by theorem parse_ub_iff; no keyword item / FieldProps string is of that form)",
+        "\"X/\" and \"/\": UnitSystem::parse refuses them (std::invalid_argument, fix ee5075475); the harness probes this in a "
+        "forked child first and sends such strings only if the tree under test refuses them (a tree without the guard "
+        "indexes parts[1] of a one-element vector: property key parse.trailing_slash fails, theorem parse_never_ub_iff)",
     ]
     ctx.stage_translate(["units"])
     if not ctx.stage_build_opm():
